@@ -1,19 +1,20 @@
 // c08: composite data types and builtins (fast/index.go, slice.go, compositelit.go, builtin.go, address.go, selector.go).
 //
 // Three kinds of generated cases:
-//  run   : a straight-line program over array variables, slice variables and map variables built from a list of
-//          model operations (make/nil/literal, 2- and 3-index slicing of slices and of array variables, index get/set,
-//          len/cap, append, copy, array assignment, map make/nil/insert/lookup/comma-ok/delete/len) with element kind
-//          chosen at random and every index/bound chosen AROUND the valid range (-1, 0, len-1, len, len+1, cap, cap+1),
-//          passed through a compiled identity function so that it is not a constant.  The program stops at its first
-//          panic.  Three-way: gomacro vs compiled Go (direct oracle) vs the Coq model (cases_NNN.v).
-//  extra : programs from templates over nested composite types (structs with slice/array/map/pointer fields, keyed /
-//          positional / nested composite literals, &T{}, new, nil dereference, nil-map write, nested indexing around the
-//          bounds): gomacro vs compiled Go.
-//  ct    : one indexing or slicing expression with constant or variable operands on a slice / array / pointer to array /
-//          constant string / string variable: does gomacro reject it while compiling, does go/types reject it, and what
-//          the model of both rules says.  gomacro must never reject what Go accepts; what it accepts although Go
-//          rejects must panic when run (never yield a value).
+//
+//	run   : a straight-line program over array variables, slice variables and map variables built from a list of
+//	        model operations (make/nil/literal, 2- and 3-index slicing of slices and of array variables, index get/set,
+//	        len/cap, append, copy, array assignment, map make/nil/insert/lookup/comma-ok/delete/len) with element kind
+//	        chosen at random and every index/bound chosen AROUND the valid range (-1, 0, len-1, len, len+1, cap, cap+1),
+//	        passed through a compiled identity function so that it is not a constant.  The program stops at its first
+//	        panic.  Three-way: gomacro vs compiled Go (direct oracle) vs the Coq model (cases_NNN.v).
+//	extra : programs from templates over nested composite types (structs with slice/array/map/pointer fields, keyed /
+//	        positional / nested composite literals, &T{}, new, nil dereference, nil-map write, nested indexing around the
+//	        bounds): gomacro vs compiled Go.
+//	ct    : one indexing or slicing expression with constant or variable operands on a slice / array / pointer to array /
+//	        constant string / string variable: does gomacro reject it while compiling, does go/types reject it, and what
+//	        the model of both rules says.  gomacro must never reject what Go accepts; what it accepts although Go
+//	        rejects must panic when run (never yield a value).
 package main
 
 import (
@@ -42,8 +43,11 @@ import (
 // ---------- model operations ----------
 type op struct {
 	K        string  `json:"k"`
-	D, S     int     `json:"d,omitempty"`
-	A, B, C  int64   `json:"a,omitempty"`
+	D        int     `json:"d,omitempty"`
+	S        int     `json:"s,omitempty"`
+	A        int64   `json:"a,omitempty"`
+	B        int64   `json:"b,omitempty"`
+	C        int64   `json:"c,omitempty"`
 	HasMax   bool    `json:"m,omitempty"`
 	Vs       []int64 `json:"vs,omitempty"`
 	NewCap   int64   `json:"-"`
@@ -93,17 +97,17 @@ func registeredKeys(dir string) map[string]bool {
 }
 
 type ctc struct {
-	Slice      bool   `json:"slice"`
-	Kind       string `json:"kind"` // slice array ptrarray conststring string
-	N          int64  `json:"n"`
-	Lo, Hi, Mx *int64 // constant operands (nil: variable or absent)
-	VarLo      bool   `json:"varlo"`
-	VarHi      bool   `json:"varhi"`
-	VarMx      bool   `json:"varmx"`
-	HasHi      bool   `json:"hashi"`
-	HasMx      bool   `json:"hasmx"`
+	Slice         bool   `json:"slice"`
+	Kind          string `json:"kind"` // slice array ptrarray conststring string
+	N             int64  `json:"n"`
+	Lo, Hi, Mx    *int64 // constant operands (nil: variable or absent)
+	VarLo         bool   `json:"varlo"`
+	VarHi         bool   `json:"varhi"`
+	VarMx         bool   `json:"varmx"`
+	HasHi         bool   `json:"hashi"`
+	HasMx         bool   `json:"hasmx"`
 	LoV, HiV, MxV int64
-	HasLo      bool `json:"haslo"`
+	HasLo         bool `json:"haslo"`
 }
 
 var elemKinds = []string{"int", "int8", "int64", "uint16", "uint8", "float64", "string"}
@@ -120,6 +124,7 @@ func lit(elem string, v int64) string {
 	}
 	return fmt.Sprintf("%s(%d)", elem, v)
 }
+
 // wrapArg: while the known finding C08-single-arg-comma-ok reproduces, a map index is never the only argument of a call
 var wrapArg bool
 
@@ -821,7 +826,7 @@ func main() {
 		// the compiled-Go oracle is one package per program: 6000/1500/2500 programs took 55 min to build on the loaded
 		// machine (0.33 s per package); 10x the quick tier stays near 20 min there (~3 min on an idle one)
 		nRun, nExtra, nCt, perShard = 2000, 800, 1200, 500
-		nFresh = 500 // (t-b, thorough-tier sizing) every program is one more oracle package: keep the total near 4500
+		nFresh = 500                                        // (t-b, thorough-tier sizing) every program is one more oracle package: keep the total near 4500
 		nCidx = (len(cidxCombos()) + cidxSec - 1) / cidxSec // the whole table
 	}
 	if a.N > 0 {
@@ -972,7 +977,7 @@ func main() {
 		return
 	}
 	cw := vh.NewCases(a, "From Coq Require Import List ZArith.\nFrom Verif Require Import C08.Model.\nImport ListNotations.\nOpen Scope Z_scope.", "case", "mismatches", perShard)
-	wd := vh.NewWatchdog(rep, 120*time.Second) // generous: load average on the shared machine reaches 100+
+	wd := vh.NewWatchdog(rep, 180*time.Second) // generous: load average on the shared machine reaches 100+
 	registered := registeredKeys(os.Getenv("VERIF_DIR"))
 	deferred := []string{}
 	for _, p := range progs {
